@@ -378,6 +378,8 @@ def c18():
 
         inputs += _sc.wide_types(chk)
         inputs += _sc.shape_programs(chk, only=("argn", "nest", "dup"))
+        # every hand-written corpus program (valid programs through all later stages: "never panics")
+        inputs += [f for f in pipeline.corpus_programs() if f not in set(inputs)]
         outcome_hist = {}
         cli_expect = {}
         for path in inputs:
